@@ -150,7 +150,7 @@ def coq_ctx(ctx, kernel=None):
 
 
 HEADER = """From Coq Require Import ZArith List String.
-From Strand Require Import Base.ZUtil Model.Outcome Model.Codec Model.Sha512 Model.Backend Model.ZBackend Model.Zkp Model.Exec%s.
+From Strand Require Import Base.ZUtil Model.Outcome Model.Codec Model.Sha512 Model.Backend Model.ZBackend Model.Zkp Model.Exec Model.Run%s.
 Import ListNotations.
 Open Scope Z_scope.
 """
@@ -170,8 +170,9 @@ def _coq_shard(args):
                 k_, fl_, p_, op, "; ".join(coq_val(a) for a in margs), coq_val(expected)))
         f.write(";\n".join(rows))
         f.write("\n].\n")
-        f.write("Eval vm_compute in (map fst (mismatches cases)).\n")
-        f.write("Eval vm_compute in (mismatches cases).\n")
+        f.write("Definition result := Eval vm_compute in (mismatches cases).\n")
+        f.write("Eval vm_compute in (map fst result).\n")
+        f.write("Eval vm_compute in result.\n")
     t0 = time.time()
     rc, out = sh(["coqc", "-noglob", "-Q", COQ, "Strand", path], cwd=wd, timeout=3000)
     return k, rc, out, time.time() - t0
@@ -207,6 +208,8 @@ def ctx_tuple(ctx):
     flavor = {"B": "Bigint", "M": "Malachite"}[fl]
     if p == "2048":
         return ("K_fast", flavor, "P2048")
+    if int(p) > 2 ** 32:
+        return ("K_fast", flavor, "(mkP %s)" % p)
     return ("K_ref", flavor, "(mkP %s)" % p)
 
 
@@ -245,15 +248,21 @@ def check_theorems(prop_id):
         return res
     # Print Assumptions output blocks
     closed = out.count("Closed under the global context")
-    axioms = []
-    for m in re.finditer(r"^Axioms:\n((?:.+\n?)+?)(?=\n|\Z)", out, re.M):
-        axioms.append(m.group(1))
+    axioms = []      # one entry per "Axioms:" block
     names_ax = []
-    for blk in axioms:
-        for line in blk.splitlines():
-            mm = re.match(r"^(\S+)\s*:", line)
-            if mm:
-                names_ax.append(mm.group(1))
+    inblk = False
+    for line in out.splitlines():
+        if line.strip() == "Axioms:":
+            inblk = True
+            axioms.append([])
+            continue
+        if line.startswith("Closed under the global context"):
+            inblk = False
+            continue
+        if inblk and line and not line[0].isspace():
+            nm = line.split()[0].rstrip(":")
+            axioms[-1].append(nm)
+            names_ax.append(nm)
     res["assumptions"] = sorted(set(names_ax))
     notallowed = [a for a in names_ax if not any(w in a for w in AXIOM_ALLOW)]
     if notallowed:
@@ -305,25 +314,32 @@ class Env:
         return outs
 
     def tie(self, items, what, shard=200):
-        """items: list of (harness_case, ctx, model_op, model_args, expected). Compares model and implementation in Coq."""
+        """items: list of (harness_case, ctx, model_op, model_args, expected). Compares model and implementation in Coq.
+        2048-bit cases cost seconds each (BigZ kernel): they go one per coqc process, the rest in shards."""
         if not items:
             return []
-        self._tie_round += 1
-        coq_items = [(ctx_tuple(ctx), op, margs, exp) for (_, ctx, op, margs, exp) in items]
-        extra = ""
-        if any(ctx.endswith(":2048") for (_, ctx, _, _, _) in items):
-            extra = " Base.FastArith Model.Params2048"
-        mism, err = run_coq_cases(os.path.join(self.wd, "tie%d" % self._tie_round), coq_items, shard=shard, extra_imports=extra)
-        self.tie_cases += len(items)
-        if err:
-            self.violations.append(("correspondence evaluation failed (%s): %s" % (what, err[:500]),
-                                    {"kind": "tie-error", "what": what, "error": err}, False))
-            return []
+        big = [it for it in items if it[1].endswith(":2048")]
+        small = [it for it in items if not it[1].endswith(":2048")]
         out = []
-        for idx, detail in mism:
-            hc, ctx, op, margs, exp = items[idx]
-            self.tie_mismatches += 1
-            out.append((idx, hc, ctx, op, margs, exp, detail))
+        for group, sh_ in ((small, shard), (big, 1)):
+            if not group:
+                continue
+            self._tie_round += 1
+            coq_items = [(ctx_tuple(ctx), op, margs, exp) for (_, ctx, op, margs, exp) in group]
+            extra = " Base.FastArith Model.Params2048"
+            _t = time.time()
+            mism, err = run_coq_cases(os.path.join(self.wd, "tie%d" % self._tie_round), coq_items, shard=sh_, extra_imports=extra)
+            if os.environ.get("VERIF_DEBUG"):
+                print("[tie %s] %d cases %.1fs" % (what, len(group), time.time() - _t), file=sys.stderr)
+            self.tie_cases += len(group)
+            if err:
+                self.violations.append(("correspondence evaluation failed (%s): %s" % (what, err[:500]),
+                                        {"kind": "tie-error", "what": what, "error": err}, False))
+                continue
+            for idx, detail in mism:
+                hc, ctx, op, margs, exp = group[idx]
+                self.tie_mismatches += 1
+                out.append((idx, hc, ctx, op, margs, exp, detail))
         return out
 
     def tie_violation(self, what, mism):
